@@ -472,6 +472,24 @@ fn hist_apply(b: &mut chia_datalayer::MerkleBlob, op: HOp) -> Result<bool, Strin
     match r { Ok(r) => Ok(r.is_ok()), Err(_) => Err("operation panicked".into()) }
 }
 
+/// whether a plain map with the blob's two uniqueness rules (one leaf per key, one leaf per hash) accepts the operation;
+/// None = no expectation (explicit insert locations have further, positional, refusal reasons)
+fn hist_must_succeed(m: &HModel, op: HOp) -> Option<bool> {
+    let hash_used = |h: u8, except: Option<i64>| m.iter().any(|(k, (_, hh))| *hh == h && Some(*k) != except);
+    match op {
+        HOp::Insert { k, h } => Some(!m.contains_key(&k) && !hash_used(h, None)),
+        HOp::Delete { k } => Some(m.contains_key(&k)),
+        HOp::Upsert { k, h, .. } => Some(if m.contains_key(&k) { !hash_used(h, Some(k)) } else { !hash_used(h, None) }),
+        HOp::Batch { ks } => {
+            let mut seen_k = std::collections::BTreeSet::new(); let mut seen_h = std::collections::BTreeSet::new();
+            let mut ok = true;
+            for (k, h) in ks { if !seen_k.insert(*k) || !seen_h.insert(*h) || m.contains_key(k) || hash_used(*h, None) { ok = false; } }
+            Some(ok)
+        }
+        _ => None,
+    }
+}
+
 fn hist_model_apply(m: &mut HModel, op: HOp) {
     match op {
         HOp::Insert { k, h } | HOp::InsertAt { k, h, .. } | HOp::InsertRoot { k, h } => { m.insert(k, (k, h)); }
@@ -536,6 +554,7 @@ fn hist_dfs(b: &chia_datalayer::MerkleBlob, m: &HModel, root: Option<chia_datala
         *count += 1;
         let verdict = match hist_apply(&mut nb, *op) {
             Err(e) => Err(e),
+            Ok(ok) if hist_must_succeed(m, *op).is_some_and(|w| w != ok) => Err(format!("the operation {} although a plain map with unique keys and hashes {}", if ok { "succeeded" } else { "failed" }, if ok { "refuses it" } else { "accepts it" })),
             Ok(ok) => {
                 if ok { hist_model_apply(&mut nm, *op); }
                 match hist_observe(&nb, &nm) {
@@ -575,6 +594,7 @@ pub fn datalayer_histories(depth: usize) -> EvalResult {
         count += 1;
         match hist_apply(&mut nb, HIST_OPS[first]) {
             Err(e) => fails.push((path.clone(), e)),
+            Ok(ok) if hist_must_succeed(&m, HIST_OPS[first]).is_some_and(|w| w != ok) => fails.push((path.clone(), "the first operation's verdict differs from a plain map with unique keys and hashes".into())),
             Ok(ok) => {
                 if ok { hist_model_apply(&mut nm, HIST_OPS[first]); }
                 match hist_observe(&nb, &nm) {
@@ -618,6 +638,7 @@ pub fn replay_histories(input: &Value) -> (bool, String) {
         if *i >= HIST_OPS.len() { out = (false, "bad op index".into()); break; }
         match hist_apply(&mut b, HIST_OPS[*i]) {
             Err(e) => { out = (true, format!("step {n} {:?}: {e}", HIST_OPS[*i])); break; }
+            Ok(ok) if hist_must_succeed(&m, HIST_OPS[*i]).is_some_and(|w| w != ok) => { out = (true, format!("step {n} {:?} returned {}: a plain map with unique keys and hashes decides otherwise", HIST_OPS[*i], if ok { "Ok" } else { "Err" })); break; }
             Ok(ok) => {
                 if ok { hist_model_apply(&mut m, HIST_OPS[*i]); }
                 match hist_observe(&b, &m) {
